@@ -26,15 +26,108 @@ func abs64(n int64) int64 {
 	return n
 }
 
+func (d Dec) isSym() bool { return d.T != nil || d.I != nil }
+
+// decTerm returns the exact value as a Real term.
 func (in *Interp) decTerm(d Dec) *Term {
 	if d.T != nil {
 		return d.T
 	}
+	if d.I != nil {
+		r := in.TC.App(RealSort, "to_real", d.I)
+		if d.S == 0 {
+			return r
+		}
+		return in.TC.App(RealSort, "/", r, RealConstRat(pow10Rat(d.S)))
+	}
 	return RealConstRat(d.C.Rat())
 }
 
+func pow10Int(n int64) *big.Int {
+	return new(big.Int).Exp(big.NewInt(10), big.NewInt(n), nil)
+}
+
+// scaled returns (coef, scale) with value = coef/10^scale for concrete and
+// integer-scaled symbolic decimals; ok=false for Real-valued ones.
+func (in *Interp) scaled(d Dec) (*Term, int64, bool) {
+	if d.T != nil {
+		return nil, 0, false
+	}
+	if d.I != nil {
+		return d.I, d.S, true
+	}
+	coef := d.C.Coefficient()
+	exp := int64(d.C.Exponent())
+	if exp >= 0 {
+		return IntConstBig(new(big.Int).Mul(coef, pow10Int(exp))), 0, true
+	}
+	return IntConstBig(coef), -exp, true
+}
+
+// concScaled returns the concrete (coef, scale) of a concrete decimal.
+func concScaled(d Dec) (*big.Int, int64) {
+	coef := d.C.Coefficient()
+	exp := int64(d.C.Exponent())
+	if exp >= 0 {
+		return new(big.Int).Mul(coef, pow10Int(exp)), 0
+	}
+	return coef, -exp
+}
+
+func (in *Interp) mulConst(t *Term, k *big.Int) *Term {
+	if k.Cmp(bigOne) == 0 {
+		return t
+	}
+	return in.TC.App(IntSort, "*", t, IntConstBig(k))
+}
+
+// align brings two scaled decimals to a common scale.
+func (in *Interp) align(a *Term, sa int64, b *Term, sb int64) (*Term, *Term, int64) {
+	switch {
+	case sa == sb:
+		return a, b, sa
+	case sa < sb:
+		return in.mulConst(a, pow10Int(sb-sa)), b, sb
+	default:
+		return a, in.mulConst(b, pow10Int(sa-sb)), sa
+	}
+}
+
+// truncDivConst: truncated (toward zero) division of an Int term by a positive constant.
+func (in *Interp) truncDivConst(t *Term, k *big.Int) *Term {
+	tc := in.TC
+	if k.Cmp(bigOne) == 0 {
+		return t
+	}
+	kc := IntConstBig(k)
+	return tc.Ite(tc.App(BoolSort, ">=", t, IntConst(0)), tc.App(IntSort, "div", t, kc), tc.App(IntSort, "-", tc.App(IntSort, "div", tc.App(IntSort, "-", t), kc)))
+}
+
+// roundDivConst: division by a positive constant rounding half away from zero.
+func (in *Interp) roundDivConst(t *Term, k *big.Int) *Term {
+	tc := in.TC
+	if k.Cmp(bigOne) == 0 {
+		return t
+	}
+	kc := IntConstBig(k)
+	// |t|*2 + k  div 2k  == floor(|t|/k + 1/2)
+	two := big.NewInt(2)
+	k2 := IntConstBig(new(big.Int).Mul(k, two))
+	up := func(x *Term) *Term {
+		return tc.App(IntSort, "div", tc.App(IntSort, "+", tc.App(IntSort, "*", x, IntConst(2)), kc), k2)
+	}
+	return tc.Ite(tc.App(BoolSort, ">=", t, IntConst(0)), up(t), tc.App(IntSort, "-", up(tc.App(IntSort, "-", t))))
+}
+
+func (in *Interp) floorDivConst(t *Term, k *big.Int) *Term {
+	if k.Cmp(bigOne) == 0 {
+		return t
+	}
+	return in.TC.App(IntSort, "div", t, IntConstBig(k))
+}
+
 func (in *Interp) decCmp(op string, a, b Dec) value {
-	if a.T == nil && b.T == nil {
+	if !a.isSym() && !b.isSym() {
 		c := a.C.Cmp(b.C)
 		switch op {
 		case "=":
@@ -49,10 +142,19 @@ func (in *Interp) decCmp(op string, a, b Dec) value {
 			return c >= 0
 		}
 	}
-	if op == "=" {
-		return symOrBool(in.TC.Eq(in.decTerm(a), in.decTerm(b)))
+	var x, y *Term
+	if ai, as, ok := in.scaled(a); ok {
+		if bi, bs, ok := in.scaled(b); ok {
+			x, y, _ = in.align(ai, as, bi, bs)
+		}
 	}
-	return symOrBool(in.TC.App(BoolSort, op, in.decTerm(a), in.decTerm(b)))
+	if x == nil {
+		x, y = in.decTerm(a), in.decTerm(b)
+	}
+	if op == "=" {
+		return symOrBool(in.TC.Eq(x, y))
+	}
+	return symOrBool(in.TC.App(BoolSort, op, x, y))
 }
 
 func realZero() *Term { return &Term{S: "0.0", Sort: RealSort} }
@@ -118,96 +220,219 @@ func decArg(v value) Dec {
 }
 
 func (in *Interp) decDivZero(b Dec) {
-	if b.T == nil {
+	fail := func() {
+		panic(targetPanic{v: iface{t: in.runtimeErrorType(), v: "decimal division by 0"}, msg: "decimal division by 0"})
+	}
+	if !b.isSym() {
 		if b.C.IsZero() {
-			panic(targetPanic{v: iface{t: in.runtimeErrorType(), v: "decimal division by 0"}, msg: "decimal division by 0"})
+			fail()
 		}
 		return
 	}
-	if !in.branch(in.TC.Not(in.TC.Eq(b.T, realZero()))) {
-		panic(targetPanic{v: iface{t: in.runtimeErrorType(), v: "decimal division by 0"}, msg: "decimal division by 0"})
+	if !in.truth(in.not(in.decCmp("=", b, Dec{}))) {
+		fail()
 	}
+}
+
+// decRounded applies a rounding mode at p decimal places.
+// mode: "trunc", "round" (half away), "floor", "ceil", "bank", "up" (away from zero)
+func (in *Interp) decRounded(x Dec, p int64, mode string) Dec {
+	tc := in.TC
+	if xi, xs, ok := in.scaled(x); ok && mode != "bank" {
+		if xs <= p {
+			return x
+		}
+		k := pow10Int(xs - p)
+		var r *Term
+		switch mode {
+		case "trunc":
+			r = in.truncDivConst(xi, k)
+		case "round":
+			r = in.roundDivConst(xi, k)
+		case "floor":
+			r = in.floorDivConst(xi, k)
+		case "ceil":
+			r = tc.App(IntSort, "-", in.floorDivConst(tc.App(IntSort, "-", xi), k))
+		case "up":
+			r = tc.Ite(tc.App(BoolSort, ">=", xi, IntConst(0)),
+				tc.App(IntSort, "-", in.floorDivConst(tc.App(IntSort, "-", xi), k)),
+				in.floorDivConst(xi, k))
+		}
+		if p < 0 {
+			return Dec{I: in.mulConst(r, pow10Int(-p)), S: 0}
+		}
+		return Dec{I: r, S: p}
+	}
+	xt := in.decTerm(x)
+	switch mode {
+	case "trunc":
+		return Dec{T: in.truncTerm(xt, p)}
+	case "round":
+		return Dec{T: in.roundTerm(xt, p)}
+	case "floor":
+		return Dec{T: in.floorTerm(xt, p)}
+	case "ceil":
+		return Dec{T: in.ceilTerm(xt, p)}
+	case "bank":
+		return Dec{T: in.roundBankTerm(xt, p)}
+	case "up":
+		return Dec{T: tc.Ite(tc.App(BoolSort, ">=", xt, realZero()), in.ceilTerm(xt, p), in.floorTerm(xt, p))}
+	}
+	panic("decRounded: " + mode)
+}
+
+// decQuo returns x / y rounded with mode at precision prec (y != 0 checked by caller).
+func (in *Interp) decQuo(x, y Dec, prec int64, mode string) Dec {
+	if xi, xs, ok := in.scaled(x); ok && !y.isSym() && prec >= 0 {
+		// x/y * 10^prec = xi * 10^(prec+ys) / (10^xs * yc)
+		yc, ys := concScaled(y)
+		num := xi
+		den := new(big.Int).Set(yc)
+		if den.Sign() < 0 {
+			den.Neg(den)
+			num = in.TC.App(IntSort, "-", num)
+		}
+		e := prec + ys - xs
+		if e >= 0 {
+			num = in.mulConst(num, pow10Int(e))
+		} else {
+			den.Mul(den, pow10Int(-e))
+		}
+		switch mode {
+		case "trunc":
+			return Dec{I: in.truncDivConst(num, den), S: prec}
+		case "round":
+			return Dec{I: in.roundDivConst(num, den), S: prec}
+		}
+	}
+	q := in.TC.App(RealSort, "/", in.decTerm(x), in.decTerm(y))
+	if mode == "trunc" {
+		return Dec{T: in.truncTerm(q, prec)}
+	}
+	return Dec{T: in.roundTerm(q, prec)}
+}
+
+func (in *Interp) decAdd(x, y Dec, sub bool) Dec {
+	if !x.isSym() && !y.isSym() {
+		if sub {
+			return Dec{C: x.C.Sub(y.C)}
+		}
+		return Dec{C: x.C.Add(y.C)}
+	}
+	op := "+"
+	if sub {
+		op = "-"
+	}
+	if xi, xs, ok := in.scaled(x); ok {
+		if yi, ys, ok := in.scaled(y); ok {
+			a, b, s := in.align(xi, xs, yi, ys)
+			return Dec{I: in.TC.App(IntSort, op, a, b), S: s}
+		}
+	}
+	return Dec{T: in.TC.App(RealSort, op, in.decTerm(x), in.decTerm(y))}
+}
+
+func (in *Interp) decMul(x, y Dec) Dec {
+	if !x.isSym() && !y.isSym() {
+		return Dec{C: x.C.Mul(y.C)}
+	}
+	if !x.isSym() {
+		x, y = y, x
+	}
+	if xi, xs, ok := in.scaled(x); ok && !y.isSym() {
+		yc, ys := concScaled(y)
+		return Dec{I: in.TC.App(IntSort, "*", xi, IntConstBig(yc)), S: xs + ys}
+	}
+	return Dec{T: in.TC.App(RealSort, "*", in.decTerm(x), in.decTerm(y))}
+}
+
+func (in *Interp) decNeg(x Dec) Dec {
+	switch {
+	case !x.isSym():
+		return Dec{C: x.C.Neg()}
+	case x.I != nil:
+		return Dec{I: in.TC.App(IntSort, "-", x.I), S: x.S}
+	}
+	return Dec{T: in.TC.App(RealSort, "-", x.T)}
 }
 
 func registerDecimal(in *Interp) {
 	I := in.intrinsics
 	const P = "github.com/shopspring/decimal."
 	const M = "(github.com/shopspring/decimal.Decimal)."
-	bin := func(native func(a, b decimal.Decimal) decimal.Decimal, op string) intrinsicFn {
-		return func(in *Interp, fr *frame, fn *ssa.Function, a []value) value {
-			x, y := decArg(a[0]), decArg(a[1])
-			if x.T == nil && y.T == nil {
-				return Dec{C: native(x.C, y.C)}
-			}
-			return Dec{T: in.TC.App(RealSort, op, in.decTerm(x), in.decTerm(y))}
-		}
+	I[M+"Add"] = func(in *Interp, fr *frame, fn *ssa.Function, a []value) value {
+		return in.decAdd(decArg(a[0]), decArg(a[1]), false)
 	}
-	I[M+"Add"] = bin(decimal.Decimal.Add, "+")
-	I[M+"Sub"] = bin(decimal.Decimal.Sub, "-")
-	I[M+"Mul"] = bin(decimal.Decimal.Mul, "*")
+	I[M+"Sub"] = func(in *Interp, fr *frame, fn *ssa.Function, a []value) value {
+		return in.decAdd(decArg(a[0]), decArg(a[1]), true)
+	}
+	I[M+"Mul"] = func(in *Interp, fr *frame, fn *ssa.Function, a []value) value {
+		return in.decMul(decArg(a[0]), decArg(a[1]))
+	}
 	I[M+"Neg"] = func(in *Interp, fr *frame, fn *ssa.Function, a []value) value {
-		x := decArg(a[0])
-		if x.T == nil {
-			return Dec{C: x.C.Neg()}
-		}
-		return Dec{T: in.TC.App(RealSort, "-", x.T)}
+		return in.decNeg(decArg(a[0]))
 	}
 	I[M+"Abs"] = func(in *Interp, fr *frame, fn *ssa.Function, a []value) value {
 		x := decArg(a[0])
-		if x.T == nil {
+		switch {
+		case !x.isSym():
 			return Dec{C: x.C.Abs()}
+		case x.I != nil:
+			return Dec{I: in.TC.Ite(in.TC.App(BoolSort, ">=", x.I, IntConst(0)), x.I, in.TC.App(IntSort, "-", x.I)), S: x.S}
 		}
 		return Dec{T: in.TC.Ite(in.TC.App(BoolSort, ">=", x.T, realZero()), x.T, in.TC.App(RealSort, "-", x.T))}
 	}
-	unaryP := func(native func(d decimal.Decimal, p int32) decimal.Decimal, sym func(in *Interp, x *Term, p int64) *Term) intrinsicFn {
+	unaryP := func(native func(d decimal.Decimal, p int32) decimal.Decimal, mode string) intrinsicFn {
 		return func(in *Interp, fr *frame, fn *ssa.Function, a []value) value {
 			x := decArg(a[0])
 			p := in.intArg(a[1], "decimal places")
-			if x.T == nil {
+			if !x.isSym() {
 				return Dec{C: native(x.C, int32(p))}
 			}
-			return Dec{T: sym(in, x.T, p)}
+			return in.decRounded(x, p, mode)
 		}
 	}
-	I[M+"Truncate"] = unaryP(decimal.Decimal.Truncate, (*Interp).truncTerm)
-	I[M+"Round"] = unaryP(decimal.Decimal.Round, (*Interp).roundTerm)
-	I[M+"RoundBank"] = unaryP(decimal.Decimal.RoundBank, (*Interp).roundBankTerm)
-	I[M+"RoundFloor"] = unaryP(decimal.Decimal.RoundFloor, (*Interp).floorTerm)
-	I[M+"RoundCeil"] = unaryP(decimal.Decimal.RoundCeil, (*Interp).ceilTerm)
-	I[M+"RoundDown"] = unaryP(decimal.Decimal.RoundDown, (*Interp).truncTerm)
-	I[M+"RoundUp"] = unaryP(decimal.Decimal.RoundUp, func(in *Interp, x *Term, p int64) *Term {
-		// away from zero
-		return in.TC.Ite(in.TC.App(BoolSort, ">=", x, realZero()), in.ceilTerm(x, p), in.floorTerm(x, p))
-	})
+	I[M+"Truncate"] = unaryP(decimal.Decimal.Truncate, "trunc")
+	I[M+"Round"] = unaryP(decimal.Decimal.Round, "round")
+	I[M+"RoundBank"] = unaryP(decimal.Decimal.RoundBank, "bank")
+	I[M+"RoundFloor"] = unaryP(decimal.Decimal.RoundFloor, "floor")
+	I[M+"RoundCeil"] = unaryP(decimal.Decimal.RoundCeil, "ceil")
+	I[M+"RoundDown"] = unaryP(decimal.Decimal.RoundDown, "trunc")
+	I[M+"RoundUp"] = unaryP(decimal.Decimal.RoundUp, "up")
 	I[M+"Floor"] = func(in *Interp, fr *frame, fn *ssa.Function, a []value) value {
 		x := decArg(a[0])
-		if x.T == nil {
+		if !x.isSym() {
 			return Dec{C: x.C.Floor()}
 		}
-		return Dec{T: in.floorTerm(x.T, 0)}
+		return in.decRounded(x, 0, "floor")
 	}
 	I[M+"Ceil"] = func(in *Interp, fr *frame, fn *ssa.Function, a []value) value {
 		x := decArg(a[0])
-		if x.T == nil {
+		if !x.isSym() {
 			return Dec{C: x.C.Ceil()}
 		}
-		return Dec{T: in.ceilTerm(x.T, 0)}
+		return in.decRounded(x, 0, "ceil")
 	}
 	I[M+"Shift"] = func(in *Interp, fr *frame, fn *ssa.Function, a []value) value {
 		x := decArg(a[0])
 		p := in.intArg(a[1], "shift")
-		if x.T == nil {
+		if !x.isSym() {
 			return Dec{C: x.C.Shift(int32(p))}
+		}
+		if x.I != nil {
+			if x.S-p >= 0 {
+				return Dec{I: x.I, S: x.S - p}
+			}
+			return Dec{I: in.mulConst(x.I, pow10Int(p-x.S)), S: 0}
 		}
 		return Dec{T: in.TC.App(RealSort, "*", x.T, RealConstRat(pow10Rat(p)))}
 	}
 	divRound := func(in *Interp, x, y Dec, prec int64) Dec {
 		in.decDivZero(y)
-		if x.T == nil && y.T == nil {
+		if !x.isSym() && !y.isSym() {
 			return Dec{C: x.C.DivRound(y.C, int32(prec))}
 		}
-		q := in.TC.App(RealSort, "/", in.decTerm(x), in.decTerm(y))
-		return Dec{T: in.roundTerm(q, prec)}
+		return in.decQuo(x, y, prec, "round")
 	}
 	I[M+"Div"] = func(in *Interp, fr *frame, fn *ssa.Function, a []value) value {
 		return divRound(in, decArg(a[0]), decArg(a[1]), 16)
@@ -219,14 +444,13 @@ func registerDecimal(in *Interp) {
 		x, y := decArg(a[0]), decArg(a[1])
 		prec := in.intArg(a[2], "precision")
 		in.decDivZero(y)
-		if x.T == nil && y.T == nil {
+		if !x.isSym() && !y.isSym() {
 			q, r := x.C.QuoRem(y.C, int32(prec))
 			return tuple{Dec{C: q}, Dec{C: r}}
 		}
-		xt, yt := in.decTerm(x), in.decTerm(y)
-		q := in.truncTerm(in.TC.App(RealSort, "/", xt, yt), prec)
-		r := in.TC.App(RealSort, "-", xt, in.TC.App(RealSort, "*", q, yt))
-		return tuple{Dec{T: q}, Dec{T: r}}
+		q := in.decQuo(x, y, prec, "trunc")
+		r := in.decAdd(x, in.decMul(q, y), true)
+		return tuple{q, r}
 	}
 	cmp := func(op string) intrinsicFn {
 		return func(in *Interp, fr *frame, fn *ssa.Function, a []value) value {
@@ -247,24 +471,28 @@ func registerDecimal(in *Interp) {
 	I[M+"IsZero"] = zcmp("=")
 	I[M+"IsNegative"] = zcmp("<")
 	I[M+"IsPositive"] = zcmp(">")
+	sign3 := func(in *Interp, x, y Dec) value {
+		lt := boolTerm(in.decCmp("<", x, y))
+		gt := boolTerm(in.decCmp(">", x, y))
+		return symInt(in.TC.Ite(lt, IntConst(-1), in.TC.Ite(gt, IntConst(1), IntConst(0))))
+	}
 	I[M+"Cmp"] = func(in *Interp, fr *frame, fn *ssa.Function, a []value) value {
 		x, y := decArg(a[0]), decArg(a[1])
-		if x.T == nil && y.T == nil {
+		if !x.isSym() && !y.isSym() {
 			return int64(x.C.Cmp(y.C))
 		}
-		xt, yt := in.decTerm(x), in.decTerm(y)
-		return symInt(in.TC.Ite(in.TC.App(BoolSort, "<", xt, yt), IntConst(-1), in.TC.Ite(in.TC.App(BoolSort, ">", xt, yt), IntConst(1), IntConst(0))))
+		return sign3(in, x, y)
 	}
 	I[M+"Sign"] = func(in *Interp, fr *frame, fn *ssa.Function, a []value) value {
 		x := decArg(a[0])
-		if x.T == nil {
+		if !x.isSym() {
 			return int64(x.C.Sign())
 		}
-		return symInt(in.TC.Ite(in.TC.App(BoolSort, "<", x.T, realZero()), IntConst(-1), in.TC.Ite(in.TC.App(BoolSort, ">", x.T, realZero()), IntConst(1), IntConst(0))))
+		return sign3(in, x, Dec{})
 	}
 	I[M+"String"] = func(in *Interp, fr *frame, fn *ssa.Function, a []value) value {
 		x := decArg(a[0])
-		if x.T == nil {
+		if !x.isSym() {
 			return x.C.String()
 		}
 		return &SymStr{E: []value{&Tok{D: x, Fixed: -1}}}
@@ -272,48 +500,32 @@ func registerDecimal(in *Interp) {
 	I[M+"StringFixed"] = func(in *Interp, fr *frame, fn *ssa.Function, a []value) value {
 		x := decArg(a[0])
 		p := in.intArg(a[1], "places")
-		if x.T == nil {
+		if !x.isSym() {
 			return x.C.StringFixed(int32(p))
 		}
-		return &SymStr{E: []value{&Tok{D: Dec{T: in.roundTerm(x.T, p)}, Fixed: int(p)}}}
+		return &SymStr{E: []value{&Tok{D: in.decRounded(x, p, "round"), Fixed: int(p)}}}
 	}
 	I[M+"StringFixedBank"] = func(in *Interp, fr *frame, fn *ssa.Function, a []value) value {
 		x := decArg(a[0])
 		p := in.intArg(a[1], "places")
-		if x.T == nil {
+		if !x.isSym() {
 			return x.C.StringFixedBank(int32(p))
 		}
-		return &SymStr{E: []value{&Tok{D: Dec{T: in.roundBankTerm(x.T, p)}, Fixed: int(p)}}}
+		return &SymStr{E: []value{&Tok{D: in.decRounded(x, p, "bank"), Fixed: int(p)}}}
 	}
-	I[M+"IntPart"] = func(in *Interp, fr *frame, fn *ssa.Function, a []value) value {
-		x := decArg(a[0])
-		if x.T == nil {
-			return x.C.IntPart()
+	concOnly := func(name string, f func(d decimal.Decimal) value) intrinsicFn {
+		return func(in *Interp, fr *frame, fn *ssa.Function, a []value) value {
+			x := decArg(a[0])
+			if !x.isSym() {
+				return f(x.C)
+			}
+			panic(unsupported{name + " of symbolic decimal (floating point / representation detail is outside the technique)"})
 		}
-		panic(unsupported{"IntPart of symbolic decimal"})
 	}
-	I[M+"Float64"] = func(in *Interp, fr *frame, fn *ssa.Function, a []value) value {
-		x := decArg(a[0])
-		if x.T == nil {
-			f, exact := x.C.Float64()
-			return tuple{f, exact}
-		}
-		panic(unsupported{"Float64 of symbolic decimal (floating point is outside the technique)"})
-	}
-	I[M+"InexactFloat64"] = func(in *Interp, fr *frame, fn *ssa.Function, a []value) value {
-		x := decArg(a[0])
-		if x.T == nil {
-			return x.C.InexactFloat64()
-		}
-		panic(unsupported{"InexactFloat64 of symbolic decimal (floating point is outside the technique)"})
-	}
-	I[M+"Exponent"] = func(in *Interp, fr *frame, fn *ssa.Function, a []value) value {
-		x := decArg(a[0])
-		if x.T == nil {
-			return int64(x.C.Exponent())
-		}
-		panic(unsupported{"Exponent of symbolic decimal"})
-	}
+	I[M+"IntPart"] = concOnly("IntPart", func(d decimal.Decimal) value { return d.IntPart() })
+	I[M+"Float64"] = concOnly("Float64", func(d decimal.Decimal) value { f, e := d.Float64(); return tuple{f, e} })
+	I[M+"InexactFloat64"] = concOnly("InexactFloat64", func(d decimal.Decimal) value { return d.InexactFloat64() })
+	I[M+"Exponent"] = concOnly("Exponent", func(d decimal.Decimal) value { return int64(d.Exponent()) })
 	I[P+"NewFromInt"] = func(in *Interp, fr *frame, fn *ssa.Function, a []value) value {
 		switch v := a[0].(type) {
 		case int64:
@@ -323,7 +535,7 @@ func registerDecimal(in *Interp) {
 			if t.Sort.K != SInt {
 				t = in.coerce(t, IntSort, true)
 			}
-			return Dec{T: in.TC.App(RealSort, "to_real", t)}
+			return Dec{I: t, S: 0}
 		}
 		panic("NewFromInt")
 	}
@@ -357,9 +569,6 @@ func registerDecimal(in *Interp) {
 			panic(targetPanic{v: iface{t: in.runtimeErrorType(), v: err.Error()}, msg: err.Error()})
 		}
 		return Dec{C: d}
-	}
-	I[P+"Sum"] = func(in *Interp, fr *frame, fn *ssa.Function, a []value) value {
-		panic(unsupported{"decimal.Sum"})
 	}
 }
 
@@ -428,9 +637,8 @@ func (in *Interp) decFromSymString(fr *frame, s *SymStr) value {
 	if nd == 0 {
 		return fail("no digits")
 	}
-	r := tc.App(RealSort, "/", tc.App(RealSort, "to_real", acc), RealConstRat(pow10Rat(scale)))
 	if neg {
-		r = tc.App(RealSort, "-", r)
+		acc = tc.App(IntSort, "-", acc)
 	}
-	return tuple{Dec{T: r}, iface{}}
+	return tuple{Dec{I: acc, S: scale}, iface{}}
 }
